@@ -16,6 +16,7 @@ pub mod c10;
 pub mod c12;
 pub mod c13;
 pub mod c14;
+pub mod c16;
 
 use crate::case::Case;
 use crate::coord::{Batch, Stats};
@@ -133,6 +134,7 @@ pub fn run_batch(u: &mut Universe, b: &Batch, st: &mut Stats) {
         "C12" => c12::run(u, b, st),
         "C13" => c13::run(u, b, st),
         "C14" => c14::run(u, b, st),
+        "C16" => c16::run(u, b, st),
         other => st.harness_errors.push(format!("unknown check {other}")),
     }
 }
@@ -172,6 +174,10 @@ pub fn run_check(id: &str, tier: &str, seed: u64, jobs: usize) -> i32 {
         "C11" => {
             let res = crate::coord::run_batches(c11::plan(tier, seed), jobs);
             c11::finalise(tier, seed, res)
+        }
+        "C16" => {
+            let res = crate::coord::run_batches(c16::plan(tier, seed), jobs);
+            c16::finalise(tier, seed, res)
         }
         "C10" => {
             let probe = crate::coord::run_batches(c10::plan_probe(tier, seed), jobs);
